@@ -676,6 +676,9 @@ def gen_thresholds(rng: Rng) -> dict:
             lo = rng.range(-2, 4)
             me = lo + rng.range(1, 5)
             hi = me + rng.range(1, 6)
+            if rng.chance(1, 8):
+                # not strictly ascending: `_validate_thresholds` must refuse it wherever a component of this kind is constructed with it
+                lo, me, hi = rng.choice([(lo, lo, hi), (lo, me, me), (me, lo, hi), (lo, hi, me), (hi, me, lo), (lo, lo, lo)])
             out[key] = {"low": lo, "medium": me, "high": hi}
     return out
 
